@@ -120,6 +120,14 @@ CONTEXTS = {
     "non_delay": _resource_rule(lambda P, w: ps.ResourceNonDelay(resource=w)),
     "unavailable": _resource_rule(lambda P, w: ps.ResourceUnavailable(resource=w, list_of_time_intervals=[(P.int("r_lo", ph=3), P.int("r_hi", ph=5))])),
     "workload": _resource_rule(lambda P, w: ps.WorkLoad(resource=w, dict_time_intervals_and_bound={(P.int("r_lo", ph=0), P.int("r_hi", ph=9)): P.int("r_b", ph=4)}, kind="max")),
+    "periodic_unavailable": _resource_rule(lambda P, w: ps.ResourcePeriodicallyUnavailable(resource=w, period=6, offset=P.int("r_off", ph=0), list_of_time_intervals=[(P.int("r_lo", ph=2), P.int("r_hi", ph=4, hi=6))])),
+    "periodic_interrupted": _resource_rule(lambda P, w: ps.ResourcePeriodicallyInterrupted(resource=w, period=5, offset=P.int("r_off", ph=0), list_of_time_intervals=[(1, 3)])),
+    "objective_start_latest": lambda P, t, o: {"objectives": [ps.ObjectiveTasksStartLatest()]},
+    "objective_greatest_start": lambda P, t, o: {"objectives": [ps.ObjectiveMinimizeGreatestStartTime()]},
+    "objective_makespan_flowtime": lambda P, t, o: {"objectives": [ps.ObjectiveMinimizeMakespan(), ps.ObjectiveMinimizeFlowtime()]},
+    "indicator_max_lateness": lambda P, t, o: {"indicators": [ps.IndicatorMaximumLateness()]},
+    "indicator_resource_idle": _resource_rule(lambda P, w: ps.IndicatorResourceIdle(resource=w)),
+    "objective_flowtime_single_resource": _resource_rule(lambda P, w: ps.ObjectiveMinimizeFlowtimeSingleResource(resource=w)),
     "plain": ctx_plain,
     "release_due": ctx_release_due,
     "worker": ctx_worker,
@@ -150,14 +158,14 @@ def _make_t(P, kname, context):
         kw.update(release=True, due="deadline")
     if context == "work_amount":
         kw.update(work_amount=True)
-    if context in ("indicators",):
+    if context in ("indicators", "indicator_max_lateness"):
         kw.update(due="soft", priority=True)
     return make_task(P, "T", optional=True, **kw)
 
 
 def _make_o(P, context):
     kw = {}
-    if context == "indicators":
+    if context in ("indicators", "indicator_max_lateness"):
         kw.update(due="soft", priority=True)
     return make_task(P, "O", "var", vmin=True, vmax=True, **kw)
 
@@ -170,16 +178,35 @@ def deletion_shape(kname, context):
         with_second = {}
         pb2, hv = new_problem(P, True, name="without")
         o2 = _make_o(P, context)
-        CONTEXTS[context](P, None, o2)
+        extra2 = CONTEXTS[context](P, None, o2) or {}
         s2 = ps.SchedulingSolver(problem=pb2)
         s2.initialize()
         phi2 = list(s2._solver.assertions())
+        with_second["extra2"] = extra2
         with_second["solver2"] = s2
         pb, hv = new_problem(P, True, name="with")
         t = _make_t(P, kname, context)
         o = _make_o(P, context)
         extra = CONTEXTS[context](P, t, o) or {}
-        return Ctx(problem=pb, t=t, o=o, phi2=phi2, horizon=hv, extra=extra, solver2=with_second["solver2"])
+        # indicator / objective variables carry run-specific names: match them by role (declaration position)
+        pairs = []
+        e2 = with_second["extra2"]
+        for i2, i1 in zip(e2.get("indicators", []), extra.get("indicators", [])):
+            if not i2._indicator_variable.eq(i1._indicator_variable):
+                pairs.append((i2._indicator_variable, i1._indicator_variable))
+        for o2_, o1_ in zip(e2.get("objectives", []), extra.get("objectives", [])):
+            if z3.is_expr(o2_._target) and not o2_._target.eq(o1_._target):
+                pairs.append((o2_._target, o1_._target))
+        if pairs:
+            phi2 = [z3.substitute(a, *pairs) for a in phi2]
+        named, named2 = {}, {}
+        for k, (i2, i1) in enumerate(zip(e2.get("indicators", []), extra.get("indicators", []))):
+            named[f"ind{k}"], named2[f"ind{k}"] = i1._indicator_variable, i2._indicator_variable
+        for k, (o2_, o1_) in enumerate(zip(e2.get("objectives", []), extra.get("objectives", []))):
+            if z3.is_expr(o1_._target):
+                named[f"obj{k}"], named2[f"obj{k}"] = o1_._target, o2_._target
+        return Ctx(problem=pb, t=t, o=o, phi2=phi2, horizon=hv, extra=extra, solver2=with_second["solver2"], role_pairs=pairs,
+                   named=named, named2=named2)
 
     def obligations(ctx):
         t = ctx.t
@@ -210,7 +237,8 @@ def deletion_shape(kname, context):
     sh.grid_limit = 3
     # interval parameters of the embedding constraints are well-formed and non-negative
     sh.assumptions = lambda P: ([P.v("r_lo") >= 0, P.v("r_lo") < P.v("r_hi")] if "r_lo" in P.terms else []) + \
-                               ([P.v("c_lo") >= 0, P.v("c_lo") < P.v("c_hi")] if "c_lo" in P.terms else [])
+                               ([P.v("c_lo") >= 0, P.v("c_lo") < P.v("c_hi")] if "c_lo" in P.terms else []) + \
+                               [P.v(n) >= 0 for n in ("T_due", "O_due") if n in P.terms and context != "release_due"]  # due dates are dates
     return sh
 
 
@@ -227,14 +255,17 @@ def replay_deletion(desc):
         ctx = shape.build(P)  # builds 'without' (solver2 initialised) then 'with' (active problem)
         pins = []
         for n, v in w["pins"].items():
-            if "!" in n:
-                continue
+            if "!" in n or n.startswith("Indicator_Indicator"):
+                continue  # uid-named indicator variables travel under their role alias
             pins.append(z3.Bool(n) == z3.BoolVal(v) if isinstance(v, bool) else z3.Int(n) == v)
+        ap = w.get("alias_pins") or {}
+        pins1 = pins + [ctx.named[a] == v for a, v in ap.items() if a in ctx.named]
+        pins2 = pins + [ctx.named2[a] == v for a, v in ap.items() if a in ctx.named2]
         s2 = ctx.solver2
-        for e in pins:
+        for e in pins2:
             s2.append_z3_assertion(e)
         r_without = s2.solve()
-        for i, e in enumerate(pins):
+        for i, e in enumerate(pins1):
             ps.ConstraintFromExpression(name=f"__pin_{i}", expression=e)
         ps.OptionalTaskForceSchedule(name="__leave_T_out", task=ctx.t.obj, to_be_scheduled=False)
         s1 = ps.SchedulingSolver(problem=ctx.problem)
